@@ -17,7 +17,9 @@ TBegin == /\ IsEvent("Begin") /\ sub \in {"idle", "ended"}
 \* processNewEstimate: at the top of the outer loop, or right after zeros += delta inside the core loop
 TPNE == /\ IsEvent("PNE") /\ sub = "run"
         /\ \/ pc = "outer" /\ Ev.it # imax /\ pc' = "residual" /\ Bind
-           \/ pc = "updated" /\ Bind /\ Ev.it = iter + 1 /\ pc' = (IF Ev.it = imax THEN "restart" ELSE "residual")
+           \* ... zeros += delta ; processNewEstimate ; ++iter : the callback still sees the old counter
+           \/ pc = "updated" /\ Ev.it = iter /\ iter' = iter + 1 /\ zver' = Ev.zv
+              /\ pc' = (IF iter + 1 = imax THEN "restart" ELSE "residual")
         /\ UNCHANGED <<rver, lastFinite, lastConv, result, imax, must, sub>>
 TRes == /\ IsEvent("Res") /\ pc = "residual" /\ Bind
         /\ IF Ev.a = 1 THEN rver' = Ev.zv /\ pc' = "norm" ELSE rver' = rver /\ pc' = "rejecting"
